@@ -6,6 +6,7 @@ verus! {
 //@INCLUDE opcodes.rs
 //@INCLUDE prelude_compiler.rs
 //@INCLUDE compiler_convert_assumed.rs
+//@INCLUDE genpost_lemmas.rs
 
 /// meaning of a source operator (property-level table)
 pub open spec fn operator_sem(o: Operator) -> int {
@@ -136,10 +137,24 @@ impl Compiler {
                 };
                 (fused_lr && final(self).log@ == old(self).log@) || (fused_rl && final(self).log@ == old(self).log@) || generic
             }),
-            peephole_inv(*final(self)), is_prefix(old(self).instructions@, final(self).instructions@),
-            final(self).loop_contexts@.len() == old(self).loop_contexts@.len(),
+            r is Ok ==> peephole_inv(*final(self)), r is Ok ==> is_prefix(old(self).instructions@, final(self).instructions@),
+            r is Ok ==> final(self).loop_contexts@.len() == old(self).loop_contexts@.len(),
+            r is Ok ==> gen_post(*old(self), *final(self), true),
     {
+//@GHOST before_all="return res;" proof { let n = old(self).instructions@.len() as int; assert(self.instructions@ =~= old(self).instructions@ + self.instructions@.subrange(n, n + 5)); lemma_gen_post_append(*old(self), *self, self.instructions@.subrange(n, n + 5)); }
+//@GHOST before="self.compile_expression(left)?;" let ghost s0 = *self;
+//@GHOST after="self.compile_expression(left)?;" let ghost s1 = *self;
+//@GHOST after="self.compile_expression(right)?;" let ghost s2 = *self;
 //@ARM file=compiler.rs fn=compile_expression impl=Compiler arm="Expr::Infix" rules="R1;R4"
+        proof {
+            lemma_gen_post_same(*old(self), s0);
+            lemma_gen_post_trans(*old(self), s0, s1, false, true);
+            lemma_gen_post_trans(*old(self), s1, s2, false, true);
+            assert(self.instructions@ =~= s2.instructions@ + seq![self.instructions@.last()]);
+            lemma_gen_post_append(s2, *self, seq![self.instructions@.last()]);
+            lemma_gen_post_trans(*old(self), s2, *self, false, true);
+            lemma_gen_post_upgrade(*old(self), *self);
+        }
         Ok(())
     }
 }
